@@ -1,7 +1,7 @@
 (* C16 - source positions match the barrier cut; every split has exactly one reader. Statements only. *)
 From Coq Require Import List NArith.
 From RV Require Import Model.RunnerLoop Model.SplitTracker Model.Splitters
-                       Proofs.C16_Runner Proofs.C16_Static Proofs.C16_Kinesis Proofs.C16_Assign.
+                       Proofs.C16_Runner Proofs.C16_Static Proofs.C16_Kinesis Proofs.C16_Assign Proofs.C16_Http Model.HttpReader.
 From Coq Require Import Permutation.
 Import ListNotations.
 Open Scope N_scope.
@@ -18,6 +18,15 @@ Print Assumptions positions_match_cut.
 Theorem positions_match_cut_per_operator : forall steps, cut_exact_ops steps.
 Proof. exact positions_match_cut_ops. Qed.
 Print Assumptions positions_match_cut_per_operator.
+
+(* the real httpapi reader (bounded topic of n records, server pages of b): after any number of reads from a
+   start cursor c0 the records emitted are exactly the consecutive topic records from c0 and Checkpoint() reports
+   c0 + their number - also after the last page, which carries records together with end of input *)
+Theorem positions_match_cut_httpapi_reader : forall n b k c0, c0 <= n ->
+  let '(r, evs) := h_reads n b k (h_assign c0) in
+  evs = h_range c0 (length evs) /\ h_checkpoint r = c0 + N.of_nat (length evs) /\ h_checkpoint r <= n.
+Proof. exact http_cursor_matches_emitted. Qed.
+Print Assumptions positions_match_cut_httpapi_reader.
 
 (* ---- restore_resumes_positions ---- *)
 
